@@ -44,6 +44,8 @@ type c14Req struct {
 	Verify  string // "" ok, else what is wrong
 	Timeout time.Duration
 	Encoded bool
+	// AnswerLost: the server signed and tried to answer, but the caller was gone
+	AnswerLost bool
 }
 
 var c14Mods = []string{"ps", "pgp", "jar", "cat", "pe-coff", "msi", "appmanifest", "vsix", "mach-o"}
@@ -208,6 +210,7 @@ func c14Isolation(r *core.Run, scheduled bool) {
 			think      time.Duration
 			timeout    time.Duration // the caller gives up after this long (0: never)
 			accept     string        // response encodings the caller accepts
+			gone       bool          // the caller is gone when the answer is written
 			stampedeAt time.Duration
 		}
 		plans := make([][]plan, nclients)
@@ -225,6 +228,9 @@ func c14Isolation(r *core.Run, scheduled bool) {
 				}
 				// relic's own client asks for snappy; browsers, curl and net/http ask for gzip
 				p.accept = core.Pick(t, "accept-encoding", "", "gzip", "x-snappy-framed", "gzip", "x-snappy-framed, gzip", "gzip, deflate, br")
+				// the caller may be gone by the time the answer is written (the key
+				// has been used all the same, so the record must exist)
+				p.gone = p.kind == "sign" && t.Chance(1, 10, "client-gone-before-answer")
 				if t.Chance(1, 6, "caller-gives-up") {
 					p.timeout = time.Duration(1+t.Choose(150, "give-up-after")) * 10 * time.Millisecond
 				}
@@ -261,7 +267,7 @@ func c14Isolation(r *core.Run, scheduled bool) {
 						}
 					}
 					rq := &c14Req{ID: base + i, Client: name, Kind: p.kind, Case: p.c, Key: p.key, Ident: ident, Start: w.Since()}
-					rs := reqSpec{Method: "GET", Peer: fmt.Sprintf("192.0.2.%d:4000", c+1), TLS: pki[ident], Timeout: p.timeout, AcceptEncoding: p.accept}
+					rs := reqSpec{Method: "GET", Peer: fmt.Sprintf("192.0.2.%d:4000", c+1), TLS: pki[ident], Timeout: p.timeout, AcceptEncoding: p.accept, ClientGone: p.gone}
 					rq.Timeout = p.timeout
 					switch p.kind {
 					case "sign":
@@ -292,7 +298,10 @@ func c14Isolation(r *core.Run, scheduled bool) {
 					}
 					resp := serve(h, rs)
 					rq.Status, rq.Body, rq.CType, rq.End = resp.Code, resp.Body, resp.Header.Get("Content-Type"), w.Since()
-					if resp.DecodeErr != "" {
+					rq.AnswerLost = resp.WriteFailed
+					if resp.WriteFailed {
+						// nothing to judge in a body that never arrived
+					} else if resp.DecodeErr != "" {
 						rq.Verify = fmt.Sprintf("response declared Content-Encoding %q but does not decode: %s", resp.Header.Get("Content-Encoding"), resp.DecodeErr)
 					} else if ce := resp.Header.Get("Content-Encoding"); ce != "" && ce != "identity" {
 						rq.Encoded = true
@@ -456,6 +465,15 @@ func c14Isolation(r *core.Run, scheduled bool) {
 				}
 				if byFile[c.File] != 0 {
 					r.Failf("C14.audit-count", "refused-but-recorded", "refused request has an audit record: %s", desc)
+				}
+				break
+			}
+			if rq.AnswerLost {
+				// the key was used (the server got as far as sending the signature):
+				// the record of that use exists whatever became of the answer
+				r.Probe("answer-lost-after-signing")
+				if ok && byFile[c.File] != 1 {
+					r.Failf("C14.audit-count", fmt.Sprintf("answer-lost/%d", min(byFile[c.File], 2)), "the server signed and tried to answer a caller that was gone: %d audit records for that signature, want 1: %s", byFile[c.File], desc)
 				}
 				break
 			}
